@@ -10,11 +10,12 @@ import (
 func init() { register("C19", propC19) }
 
 func propC19(c *Ctx) {
-	c.Explanation = "That a blocking Fetch never sleeps forever and returns only asserted wakers quantifies over interleavings of the algorithm's atomic operations (and, on amd64, over an assembly routine the Go analysis cannot see); that is NOT decided. Decided are the structural necessary conditions of the published algorithm: (Z1) Sleeper.sharedList, Sleeper.waitingG and Waker.s are touched only through sync/atomic (waitingG's address additionally goes to gopark for the commit), and the plain fields localList/allWakers/next/allWakersNext/id only inside the sleeper-side functions that own them; (Z2) gopark is reached only when block is true, Assert/Clear/IsAsserted/AddWaker/enqueueAssertedWaker contain no blocking operation, nextWaker's only blocking operation is that gopark; (Z3) the exact protocol tables of enqueueAssertedWaker, nextWaker, Fetch, Assert, Clear, IsAsserted, AddWaker, Done (which atomic operation, on which word, with which operands, under which conditions) incl. Fetch returns an id only when the swapped-out state was the asserted marker, Assert enqueues only when the previous state was a real sleeper, goready only after a successful CAS of waitingG from a value that is neither 0 nor preparingG; (Z4) the orderings the algorithm's correctness argument uses: the waker publishes itself on sharedList BEFORE it looks at waitingG (every load of waitingG in enqueueAssertedWaker is dominated by the successful push), w.next is written before the publishing CAS, and the sleeper stores preparingG BEFORE it re-checks sharedList BEFORE it parks; after waking it loops to re-check. (Z5, non-amd64 build only) commitSleep's table. NOT decided: the interleaving argument itself, Done racing with Assert, the amd64 assembly commitSleep."
+	c.Explanation = "That a blocking Fetch never sleeps forever and returns only asserted wakers quantifies over interleavings of the algorithm's atomic operations (and, on amd64, over an assembly routine the Go analysis cannot see); that is NOT decided. Decided are the structural necessary conditions of the published algorithm: (Z1) Sleeper.sharedList, Sleeper.waitingG and Waker.s are touched only through sync/atomic (waitingG's address additionally goes to gopark for the commit), and the plain fields localList/allWakers/next/allWakersNext/id only inside the sleeper-side functions that own them; (Z2) gopark is reached only when block is true, Assert/Clear/IsAsserted/AddWaker/enqueueAssertedWaker contain no blocking operation, nextWaker's only blocking operation is that gopark; (Z3) the exact protocol tables of enqueueAssertedWaker, nextWaker, Fetch, Assert, Clear, IsAsserted, AddWaker, Done (which atomic operation, on which word, with which operands, under which conditions) incl. Fetch returns an id only when the swapped-out state was the asserted marker, Assert enqueues only when the previous state was a real sleeper, goready only after a successful CAS of waitingG from a value that is neither 0 nor preparingG; (Z4) the orderings the algorithm's correctness argument uses: the waker publishes itself on sharedList BEFORE it looks at waitingG (every load of waitingG in enqueueAssertedWaker is dominated by the successful push), w.next is written before the publishing CAS, and the sleeper stores preparingG BEFORE it re-checks sharedList BEFORE it parks; after waking it loops to re-check. (Z5, non-amd64 build only) commitSleep's table. (Z5a) on amd64 the assembly of commitSleep is read as an instruction list: one LOCK CMPXCHGQ on waitingG, expected value preparingG loaded before, result from the exchange's flags. (Z6) package sleep converts no word or id to a narrower type. NOT decided: the interleaving argument itself, Done racing with Assert, the amd64 assembly commitSleep."
 	sl, wk := "(*sleep.Sleeper).", "(*sleep.Waker)."
 	as := "sleep.assertedSleeper"
 	uas := "sleep.usleeper(" + as + ")"
 
+	c.NoNewNarrowing(c.Rule("Z6", "K8 narrowing (closed world, reviewed table)", "package sleep converts no word or id to a narrower type", 2), []string{"/pkg/sleep"}, nil)
 	z1 := c.Rule("Z1", "K3 access confinement", "shared words only through sync/atomic; plain fields only in their owners", 20)
 	c.AtomicOnly(z1, "sleep.Sleeper", "sharedList", nil)
 	c.AtomicOnly(z1, "sleep.Sleeper", "waitingG", nil, "sleep.gopark")
@@ -259,6 +260,52 @@ func propC19(c *Ctx) {
 			{Kind: "return", Args: []string{"true"}, Guards: []string{"!(0 == " + ld + ")", "sync/atomic.CompareAndSwapUintptr($1, 1, $0)"}, Exact: true, N: 1, Why: "committed"},
 		})
 	} else {
-		c.Note(z5, "sleep.commitSleep/assembly", "pkg/sleep/commit_amd64.s", "this build configuration uses the assembly commitSleep, which Go analysis does not see; the Go variant is checked under GOARCH=386 in the thorough tier")
+		c.Note(z5, "sleep.commitSleep/assembly", "pkg/sleep/commit_amd64.s", "this build configuration uses the assembly commitSleep, which Go analysis does not see; the Go variant is checked under linux/ppc64le in the thorough tier")
+		// the assembly variant: its instruction list is short enough to decide the
+		// one thing that matters - the commit is ONE locked compare-and-exchange of
+		// waitingG from preparingG to g, and nothing else writes that word
+		z5a := c.Rule("Z5a", "instruction-list check of the amd64 assembly", "commitSleep (amd64): a single LOCK CMPXCHGQ publishes g over preparingG", 3)
+		src, err := c.P.ReadRepoFile("pkg/sleep/commit_amd64.s")
+		if err != nil {
+			c.Broken(z5a, "anchor-unresolved:pkg/sleep/commit_amd64.s", err.Error())
+		} else {
+			ins := asmInstrs(string(src))
+			cas, memCX, movPrep, seteq := -1, 0, -1, -1
+			for i, x := range ins {
+				if strings.Contains(x, "(CX)") {
+					memCX++
+				}
+				if strings.HasPrefix(x, "CMPXCHGQ ") && strings.HasSuffix(x, ", 0(CX)") && i > 0 && ins[i-1] == "LOCK" {
+					cas = i
+				}
+				if x == "MOVQ $preparingG, AX" && movPrep < 0 {
+					movPrep = i
+				}
+				if x == "SETEQ AX" {
+					seteq = i
+				}
+			}
+			pos := "pkg/sleep/commit_amd64.s"
+			c.Check(cas >= 0, z5a, "commitSleep.s/locked-cmpxchg", pos, "LOCK; CMPXCHGQ g, 0(waitingG)", "the commit is no longer a LOCKed CMPXCHGQ on waitingG: a waker's abort (CAS preparingG -> 0) landing between a separate load and store is overwritten and the sleeper parks with a non-empty shared list")
+			c.Check(memCX == 1, z5a, "commitSleep.s/only-access", pos, "the compare-and-exchange is the only access to *waitingG", "waitingG is read or written by another instruction as well ("+itoa(memCX)+" memory operands through CX)")
+			c.Check(movPrep >= 0 && movPrep < cas && seteq > cas, z5a, "commitSleep.s/expected-preparing-result-from-flags", pos, "compares against preparingG and returns the exchange's ZF", "the expected value is not preparingG, or the result is not the exchange's outcome")
+		}
 	}
+}
+
+// asmInstrs: the instructions of a Plan 9 assembly file, one per entry,
+// comments, directives and the TEXT line removed, whitespace collapsed.
+func asmInstrs(src string) []string {
+	var out []string
+	for _, l := range strings.Split(src, "\n") {
+		if i := strings.Index(l, "//"); i >= 0 {
+			l = l[:i]
+		}
+		l = strings.Join(strings.Fields(l), " ")
+		if l == "" || strings.HasPrefix(l, "#") || strings.HasPrefix(l, "TEXT ") {
+			continue
+		}
+		out = append(out, l)
+	}
+	return out
 }
